@@ -333,7 +333,13 @@ void parse_itmz_token_chain(mmd_engine * e, token * chain) {
 					break;
 
 				case ITMZ_TOPIC_CLOSE:
-					header_level--;
+
+					// A closing tag without an opening one must not take the
+					// (unsigned) level below its starting value
+					if (header_level != (size_t) -1) {
+						header_level--;
+					}
+
 					break;
 
 				default:
